@@ -39,6 +39,7 @@ type popCase struct {
 	Entries []entry
 	Sibling bool // also a "<name>.wf" appender in the same directory
 	Second  bool // run a second scan of the same appender after more expired files appeared
+	DirForm int  // how FileDir is spelled: 0 as is, 1 trailing slash, 2 doubled slash, 3 "/./" inside, 4 relative with "./"
 	Outage  bool // an earlier scan of the same appender found the directory gone (listing failed)
 }
 
@@ -51,7 +52,7 @@ func (c popCase) String() string {
 		}
 		p = append(p, fmt.Sprintf("%s%s@%dmin", e.Name, d, e.AgeMin))
 	}
-	return fmt.Sprintf("name=%q maxAge=%dh sibling=%v second=%v outage=%v entries=[%s]", c.Name, c.MaxAge, c.Sibling, c.Second, c.Outage, strings.Join(p, " "))
+	return fmt.Sprintf("name=%q maxAge=%dh sibling=%v second=%v outage=%v dirForm=%d entries=[%s]", c.Name, c.MaxAge, c.Sibling, c.Second, c.Outage, c.DirForm, strings.Join(p, " "))
 }
 
 var digits14 = rapid.OneOf(
@@ -67,6 +68,7 @@ func genCase(t *rapid.T) popCase {
 		Sibling: rapid.Bool().Draw(t, "sibling"),
 		Second:  rapid.Bool().Draw(t, "secondScan"),
 		Outage:  rapid.IntRange(0, 3).Draw(t, "outageScan") == 0,
+		DirForm: rapid.SampledFrom([]int{0, 0, 1, 2, 3, 4}).Draw(t, "dirForm"),
 	}
 	if rapid.Bool().Draw(t, "anyAge") {
 		c.MaxAge = rapid.IntRange(1, 720).Draw(t, "maxAgeAny")
@@ -121,6 +123,49 @@ func list(dir string) map[string]bool {
 	return m
 }
 
+// spell returns another spelling of the same directory (what a configuration may well contain:
+// "./logs", "logs/", a path put together from pieces).
+func spell(dir string, form int) string {
+	switch form {
+	case 1:
+		return dir + "/"
+	case 2:
+		i := strings.LastIndex(dir, "/")
+		return dir[:i] + "//" + dir[i+1:]
+	case 3:
+		i := strings.LastIndex(dir, "/")
+		return dir[:i] + "/./" + dir[i+1:]
+	case 4:
+		if wd, err := os.Getwd(); err == nil {
+			if rel, err := filepath.Rel(wd, dir); err == nil {
+				return "./" + rel
+			}
+		}
+	}
+	return dir
+}
+
+// The process lives in a zone that changed its UTC offset three days ago (a daylight-saving
+// switch): a maximum age is a number of hours, whatever the calendar did in between.
+func init() {
+	sw := time.Now().Add(-72 * time.Hour).Truncate(time.Hour).Unix()
+	be32 := func(v int64) []byte { return []byte{byte(v >> 24), byte(v >> 16), byte(v >> 8), byte(v)} }
+	var b []byte
+	b = append(b, "TZif"...)
+	b = append(b, make([]byte, 16)...)       // version 1 + reserved
+	for _, n := range []int64{0, 0, 0, 1, 2, 8} { // isutcnt isstdcnt leapcnt timecnt typecnt charcnt
+		b = append(b, be32(n)...)
+	}
+	b = append(b, be32(sw)...)                  // the transition
+	b = append(b, 1)                            // ... to type 1
+	b = append(b, append(be32(3600), 0, 0)...) // type 0: +01:00, standard, "STD"
+	b = append(b, append(be32(7200), 1, 4)...) // type 1: +02:00, DST, "DST"
+	b = append(b, "STD\x00DST\x00"...)
+	if loc, err := time.LoadLocationFromTZData("Verif/Switched", b); err == nil {
+		time.Local = loc
+	}
+}
+
 func newAppender(dir, name string, maxAge int) *log.RollingFileAppender {
 	return &log.RollingFileAppender{AppenderBase: log.AppenderBase{Name: "r"}, Layout: &log.TextLayout{BaseLayout: log.BaseLayout{FileLineLength: 48}},
 		FileDir: dir, FileName: name, Rotation: log.TimeRotation{Interval: time.Hour}, MaxAge: int32(maxAge)}
@@ -143,7 +188,7 @@ func verdict(appName string, maxAge int, e entry) int {
 }
 
 func runCase(c popCase, dir string) error {
-	a := newAppender(dir, c.Name, c.MaxAge)
+	a := newAppender(spell(dir, c.DirForm), c.Name, c.MaxAge)
 	if err := a.Start(); err != nil {
 		return fmt.Errorf("VERIF-INCONCLUSIVE: %v", err)
 	}
